@@ -389,6 +389,12 @@ def show(t: Any, depth: int = 0) -> str:
 
 
 # --------------------------------------------------------------------------- evaluation
+def _getattr_const(t: Term) -> Optional[Term]:
+    if isinstance(t, tuple) and len(t) == 4 and t[0] == "call" and t[1] == ("name", "getattr") and len(t[2]) == 2 and not t[3] and t[2][1][0] == "const" and isinstance(t[2][1][1], str) and t[2][1][1].isidentifier():
+        return ("attr", t[2][0], t[2][1][1])
+    return None
+
+
 @dataclass
 class Logged:
     kind: str  # 'call' | 'store' | 'aug' | 'return' | 'raise' | 'assign' | 'del' | 'test'
@@ -613,6 +619,8 @@ class Sym:
             it = gens[0][0]
             var = ("elem", it, len(loops))
             items = tuple(subst(elt, lambda t, v=v: v if t == var else None) for v in it[1:])
+            # getattr(x, <loop variable>) became getattr(x, "name") in each instance: that is x.name
+            items = tuple(subst(i_, _getattr_const) for i_ in items)
             return ("list",) + items
         return ("comp", kind, elt, tuple(gens))
 
@@ -655,6 +663,12 @@ class Sym:
         if fd == "slice" and not kws and 1 <= len(args) <= 3:
             a3 = (NONE,) * (3 - len(args))
             return ("slice",) + ((NONE, args[0], NONE) if len(args) == 1 else args + a3)
+        # getattr(x, "name") is x.name (no default given)
+        if fd == "getattr" and len(args) == 2 and not kws and args[1][0] == "const" and isinstance(args[1][1], str) and args[1][1].isidentifier() and "getattr" not in env:
+            return ("attr", args[0], args[1][1])
+        # all([a, b, c]) / any([a, b, c]) over a literal (e.g. an unrolled comprehension over a literal tuple of cases)
+        if fd in ("all", "any") and len(args) == 1 and not kws and args[0][0] in ("list", "tuple") and 1 <= len(args[0]) - 1 <= 8 and fd not in env:
+            return (mk_and if fd == "all" else mk_or)([_strip_bool(x) for x in args[0][1:]])
         func = E(e.func)
         # views of a dict comprehension are comprehensions of its values / keys / pairs
         if func[0] == "attr" and func[2] in ("values", "keys", "items") and func[1][0] == "comp" and func[1][1] == "dict" and not args and not kws:
